@@ -79,6 +79,7 @@ def dmdc_structure_case(ctx):
 
 def oracle_fit(ctx, thorough, forced=None):
     """end-to-end with cvxopt: eigenvalues of the returned A within the bound, objective log non-increasing"""
+    snap = ctx.snap()
     rng = ctx.rng
     nx, nu = rng.randint(1, 4 if thorough else 3), rng.randint(0, 2)
     radius = rng.choice([0.6, 1.0, 1.15, 1.4])
@@ -105,7 +106,8 @@ def oracle_fit(ctx, thorough, forced=None):
         reg = lmi.LmiDmdcSpectralRadiusConstr(spectral_radius=rho, max_iter=max_iter, alpha=rng.choice([0, 0.1]),
                                               solver_params=sp)
     case = {'family': fam, 'nx': nx, 'nu': nu, 'rho': rho, 'max_iter': max_iter, 'data_radius': radius,
-            'solver_max_iterations': cap, 'X': X.tolist()}
+            'solver_max_iterations': cap, 'X': X.tolist(),
+            'replay': {'rng': snap, 'thorough': thorough, 'forced': forced}}
     try:
         reg.fit(X, **kw)
     except Exception as ex:
@@ -214,5 +216,14 @@ def run(ctx):
 
 
 def replay(ctx, path):
-    print(open(path).read()[:3000])
-    return 1
+    """re-execute the oracle call that produced the replay (same PRNG state, same forced arguments)"""
+    obj = json.load(open(path))
+    r = (obj.get('case') or {}).get('replay') if isinstance(obj.get('case'), dict) else None
+    print(json.dumps({k: v for k, v in obj.items() if k != 'case'}, indent=1)[:1500])
+    if not r:
+        print('this replay carries no re-executable oracle call (broken proof / correspondence: see "broken")')
+        return 1
+    ctx.restore(r['rng'])
+    why, case, note = oracle_fit(ctx, r['thorough'], forced=None if r['forced'] is None else tuple(r['forced']))
+    print('oracle now:', why or 'property holds on this input', '' if note is None else f'({note})')
+    return 1 if why else 0
